@@ -968,6 +968,53 @@ fn gen_cfg(rng: &mut Rng, out: &mut Out, tier: &str) {
     }
 }
 
+/// NETTING family (`n<k>`): account trades on instruments that ALREADY hold a position (increase / reduce / exact
+/// close / flip), the replica fed with repeated / stale / gapped records in between: the replica must follow the
+/// NET position, and the record digest must name the trade that was delivered (`tradeBetween`).
+fn gen_net(rng: &mut Rng, out: &mut Out, tier: &str) {
+    let nex = rng.range(1, 2) as usize;
+    let links: String = (0..nex).map(|_| if rng.chance(85) { 'H' } else { 'C' }).collect();
+    let mut defs: Vec<(usize, usize, usize)> = (0..nex).map(|e| (e, rng.below(3) as usize, 3)).collect();
+    for _ in 0..rng.below(2) {
+        defs.push((rng.below(nex as u64) as usize, rng.below(3) as usize, 3));
+    }
+    let nins = defs.len();
+    out.line(format!(
+        "init {} L {links} I {}",
+        if rng.chance(60) { "on" } else { "off" },
+        defs.iter().map(|(e, b, q)| format!("{e},{b},{q}")).collect::<Vec<_>>().join(" ")
+    ));
+    for i in 0..nins {
+        if rng.chance(80) {
+            out.line(format!("ev price {i} {}", 100 + rng.below(4)));
+        }
+    }
+    let len = rng.range(5, if tier == "thorough" { 30 } else { 16 });
+    let mut nev = nins as u64;
+    for _ in 0..len {
+        let i = rng.below(nins as u64) as usize;
+        let line = match rng.below(14) {
+            0..=7 => {
+                nev += 1;
+                format!("ev fill {i} {} {}", if rng.chance(50) { "B" } else { "S" }, rng.pick(&["1", "2", "3", "0.5", "1.5", "4"]))
+            }
+            8 => {
+                nev += 1;
+                "ev close_positions none".to_string()
+            }
+            9 => "rep_dup".to_string(),
+            10 => "rep_gap".to_string(),
+            11 => format!("rep_old {}", rng.below(nev.min(6) + 1)),
+            12 => format!("rep_at {}", rng.below(nev + 1)),
+            _ => {
+                nev += 1;
+                format!("ev reduce {i}")
+            }
+        };
+        out.line(line);
+    }
+}
+
 fn generate(seed: u64, n_cases: usize, tier: &str) {
     let mut out = Out::new();
     let mut rng = Rng::new(seed);
@@ -988,6 +1035,12 @@ fn generate(seed: u64, n_cases: usize, tier: &str) {
         gen_wide(&mut lrng, &mut out, tier, true);
     }
     // configuration-shape family (cfg audit), seeded apart: everything above stays what it was
+    // netting family, seeded apart
+    let mut nrng = Rng::new(seed ^ 0x4E77_0C10);
+    for id in 0..(n_cases / 5).max(if n_cases > 0 { 10 } else { 0 }) {
+        out.case(format!("n{id}"));
+        gen_net(&mut nrng, &mut out, tier);
+    }
     let mut crng = Rng::new(seed ^ 0xCF61_0C10);
     for id in 0..n_cases / 4 {
         out.case(format!("cfg{id}"));
